@@ -35,6 +35,9 @@ class Dense:
 
 def draw(rng, n, sizes, wide=False, homo=False):
     means = [rng.uniform(-10, 10, size=(n, e)) * (rng.choice([1e-2, 1.0]) if not wide else 1.0) for e in sizes]
+    if not wide and rng.random() < 0.3:
+        off = float(rng.choice([1e3, 1e5, 1e6]))          # the estimator depends on differences of means: a common offset of any size changes nothing
+        means = [mm + off for mm in means]
     for mm in means:
         mm[rng.random(size=mm.shape) < 0.15] = 0.0          # a predicted mean of exactly 0 is an ordinary value
     if wide:
